@@ -16,6 +16,7 @@ Decided:
 Not decided: byte identity of the re-serialisation; sample equality with the streaming decoder (value-level).
 """
 from rules.common import *
+import json
 from rules import auditlib, gramlib
 from rules.tablelib import *
 from grammar import Grammar, flat
@@ -25,6 +26,102 @@ META = {"level": "other", "rule": "path grammars of reader/writer pairs and of t
         "explanation": "Agreement between sibling implementations of one grammar, decided structurally."}
 
 ERR_PER_PRODUCTION = ["InvalidSubframeHeader", "InvalidSubframeHeaderType", "ExcessiveWastedBits", "InvalidQlpPrecision", "NegativeLpcShift", "InvalidCodingMethod", "InvalidPartitionOrder"]
+
+
+FOLD_FORMS = [{"neg", "sub1", "shl1", "add1"},   # ((-r - 1) << 1) + 1
+              {"not", "shl1", "add1"},           # (!r << 1) + 1
+              {"neg", "shl1", "sub1"}]           # (-r << 1) - 1
+
+
+def fold_rules(F, rep, P):
+    """the two places that fold a signed residual into the unsigned value that is Rice-coded use one of the known forms
+    of the zig-zag mapping (non-negative: 2r, negative: -2r - 1)"""
+    sites = [("encoder", r"^<encode::write_residuals::Partition<'_, RICE_MAX> as bitstream_io::ToBitStream>::to_writer::\{closure#0\}$"),
+             ("structural writer", r"^<stream::ResidualPartition<RICE_MAX, I> as bitstream_io::ToBitStream>::to_writer$")]
+    for name, pat in sites:
+        bs = [b for b in F.bodies if b.promoted is None and re.search(pat, b.path)]
+        if not bs:
+            rep.bad(P + ".resid", "anchor:%s residual folding" % name, "", "not found")
+            continue
+        b = bs[0]
+        sig = []
+        for bl in b.blocks:
+            for st_ in bl["s"]:
+                rv = st_["rv"]
+                if rv["r"] == "un" and rv["op"] in ("Neg", "Not"):
+                    sig.append(rv["op"].lower())
+                if rv["r"] == "bin":
+                    o = rv["op"].replace("WithOverflow", "")
+                    k = op_int(rv["b"])
+                    if o in ("Add", "Sub", "Shl") and k == 1:
+                        sig.append(o.lower() + "1")
+            t = bl["t"]
+            if t and t["t"] == "call":
+                pth = t["f"].get("path") or ""
+                if pth in ("std::ops::Not::not", "std::ops::Neg::neg"):
+                    sig.append(pth.rsplit("::", 1)[1])
+                if pth in ("std::ops::Shl::shl", "std::ops::Add::add", "std::ops::Sub::sub") and len(t["a"]) > 1 and op_int(t["a"][1]) == 1:
+                    sig.append(pth.rsplit("::", 1)[1] + "1")
+        shl = sig.count("shl1")
+        neg_branch = set(sig)
+        good = shl == 2 and neg_branch in FOLD_FORMS
+        rep.check(P + ".resid", "%s folds residuals with the zig-zag map (2r | -2r - 1)" % name, good, loc_of(b), str(sorted(sig)),
+                  "the residual folding uses operations %s, none of the known forms of 2r / -2r-1: the decoder's unfolding will not invert it" % sorted(sig))
+
+
+def decoder_depth_rules(F, ok, rep, P):
+    """streaming decoder: every subframe type is read with the effective depth (bits - wasted), the wasted-bits shift is
+    applied whenever wasted > 0, fixed predictors use shift 0 and LPC the shift read from the stream (both decoders)"""
+    b = anchor(F, rep, P + ".wasted", "decode::read_subframe")
+    if b is not None:
+        cs = [(bi, t) for bi, t in b.calls() if re.search(r"SignedBitCount::<MAX>::checked_sub$", callee_name(t))]
+        eff = None
+        if len(cs) == 1:
+            # the Continue payload local of `checked_sub(..).ok_or(..)?`
+            for bi, t in b.calls():
+                if re.search(r"Try>::branch$", callee_name(t)):
+                    sl = backward_slice(b, t["a"][0])
+                    if eff is None and any(c is cs[0][1] for c in sl["calls"]) and not any(re.search(r"read_signed_counted$|read_(fixed|lpc)_subframe$|try_for_each$", callee_name(c)) for c in sl["calls"]):
+                        eff = t["d"]["l"]
+        rep.check(P + ".wasted", "streaming decoder: effective depth = bits per sample - wasted bits (checked, ExcessiveWastedBits)", eff is not None, loc_of(b))
+        users = []
+        for body in [b] + F.closures_of(b):
+            for bi, t in body.calls():
+                nm = callee_name(t)
+                if re.search(r"BitRead::read_signed_counted$", t["f"].get("path") or "") or re.search(r"decode::read_(fixed|lpc)_subframe$", strip_generics(nm)):
+                    cs_ = capture_source(F, body, t["a"][1])
+                    users.append((strip_generics(nm).rsplit("::", 1)[-1], loc_of(body, t), cs_ is not None and cs_[1] is not None and cs_[1]["l"] == eff and cs_[0].path == b.path))
+        for nm, loc, good in users:
+            rep.check(P + ".wasted", "streaming decoder: %s reads with the effective depth" % nm, good, loc, "",
+                      "a subframe type is read with the frame's bit depth instead of (depth - wasted bits): streams with wasted bits decode to garbage")
+        rep.floor(P + ".wasted", "depth users in decode::read_subframe", len(users), 4)
+        pf = ok.path_facts(b)
+        sh = [(bi, t) for bi, t in b.calls() if re.search(r"Iterator>::for_each$|Iterator::for_each$", callee_name(t))]
+        for bi, t in sh:
+            f = pf.get(bi) or frozenset()
+            good = any(x[0] == "cmp" and ((x[1] == "Lt" and str(x[2]) == "const:0" and "wasted_bps" in str(x[3])) or (x[1] == "Gt" and str(x[3]) == "const:0" and "wasted_bps" in str(x[2])) or
+                                          (x[1] == "Ne" and "const:0" in (str(x[2]), str(x[3])) and "wasted_bps" in str(x[2]) + str(x[3]))) for x in f)
+            rep.check(P + ".wasted", "streaming decoder: the wasted-bits shift runs exactly when wasted_bps > 0", good, loc_of(b, t), "", "facts: %s" % fact_str(f))
+    for path, callee in (("decode::read_fixed_subframe", r"decode::predict$"), ("stream::Subframe::decode", r"decode::predict$")):
+        for fb in F.one(path)[:1]:
+            pr = [t for _, t in fb.calls() if re.search(callee, strip_generics(callee_name(t)))]
+            shifts = [op_int(t["a"][1]) for t in pr]
+            fixed_calls = [t for t in pr if any(re.search(r"FIXED_COEFFS", str(c)) for c in [backward_slice(fb, t["a"][0])["consts"]]) or "FIXED_COEFFS" in json.dumps(backward_slice(fb, t["a"][0])["aggs"])[:0]]
+            good = 0 in shifts if path.startswith("stream") else shifts == [0]
+            rep.check(P + ".wasted", "%s: fixed predictors are applied with shift 0" % path, good, loc_of(fb), str(shifts),
+                      "a fixed-predictor subframe is reconstructed with a non-zero shift")
+            if path.startswith("stream"):
+                lp = [t for t in pr if op_int(t["a"][1]) is None]
+                goodl = len(lp) == 1 and "shift" in place_fields(root_place(fb, lp[0]["a"][1]) or {"p": []})
+                rep.check(P + ".wasted", "%s: LPC prediction uses the shift stored in the subframe" % path, goodl, loc_of(fb))
+    lb = anchor(F, rep, P + ".wasted", "decode::read_lpc_subframe")
+    if lb is not None:
+        pr = [t for _, t in lb.calls() if re.search(r"decode::predict$", strip_generics(callee_name(t)))]
+        good = len(pr) == 1
+        if good:
+            sl = backward_slice(lb, pr[0]["a"][1])
+            good = any((c["f"].get("path") or "") == "bitstream_io::BitRead::read" and [x for x in c["f"]["args"] if not x.startswith("'")][1:2] == ["5"] for c in sl["calls"]) and not (sl["ops"] - {"Eq", "Ne"})
+        rep.check(P + ".wasted", "streaming decoder: LPC prediction uses the 5-bit shift read from the stream, unmodified", good, loc_of(lb))
 
 
 def run(ctx, rep):
@@ -179,6 +276,8 @@ def run(ctx, rep):
             cs = [t for _, t in b.calls() if re.search(r"SignedBitCount::<MAX>::checked_sub$", callee_name(t))]
             rep.check("C17.wasted", "%s: effective depth = bits-per-sample - wasted bits (checked)" % path, len(cs) >= 1, loc_of(b))
 
+    decoder_depth_rules(F, ok, rep, "C17")
+
     # ---- C17.resid -----------------------------------------------------------------------------------------------------
     sig = {}
     for name, pat in (("decode", r"^decode::read_residuals::read_block::\{closure#0\}$"), ("stream", r"ResidualPartition<RICE_MAX, I> as bitstream_io::FromBitStreamUsing>::from_reader::\{closure#0\}$")):
@@ -192,6 +291,8 @@ def run(ctx, rep):
         sig[name] = (ops, calls)
     if len(sig) == 2:
         rep.check("C17.resid", "both decoders unfold Rice residuals with the same operations", sig["decode"] == sig["stream"], "", str(sig["decode"])[:200], "decode.rs: %s ; stream.rs: %s" % (sig["decode"], sig["stream"]))
+
+    fold_rules(F, rep, "C17")
 
     # ---- C17.panic --------------------------------------------------------------------------------------------------------
     auditlib.panic_audit(ctx, rep, "C17", ["G_stream_w"], floor_sites=30)
